@@ -173,7 +173,7 @@ Proof.
     clear Hplain.
     match type of Hf with (if ?b then _ else _) = _ => destruct b eqn:Hc; [|discriminate Hf] end.
     apply andb_prop in Hc as [Hc Hfb]. apply andb_prop in Hc as [Hfr Hpok].
-    destruct (frag_stmts pv sv bound ((var, length (param_ids params)) :: fl) k (rev (param_ids params) ++ sc) body) as [scout|] eqn:Hfbody; [|discriminate Hfb].
+    match type of Hfb with is_some ?x = true => destruct x as [scout|] eqn:Hfbody; [|discriminate Hfb] end.
     cbn [compile_stmt] in Hy. rewrite definition_fun in Hy. mon Hy. fresh_all.
     destruct (L_fb_all pv sv bound u _ n k body 0 (c + 1) a0 c1 _ scout l Hm0 Hfbody) as (bb & l1 & Hsb).
     pose proof Hsb as (_ & Hcc1 & Hfr1 & _).
@@ -192,22 +192,20 @@ Lemma items_sim n' k : forall items c cs c' cend e st r st' sc scf fl flf W l E 
   frag_items pv sv bound k sc fl items = Some (scf, flf) ->
   ucovers u (concat cs) -> c' <= cend -> ctx_ok l F E c cend ->
   rel pv sv bound u fl W sc e st E stL ->
-  (forall d, In d (w_funs W) -> In (fd_var d) (fnames fl)) ->
   match r with SyltSem.RAbrupt _ => False | _ => True end -> interesting r ->
   exists b l', cshape u l (concat cs) b l' c c' /\
     match r with
     | SyltSem.RVal e' =>
         exists W' E' stL' F', ExecS E b stL (ROk (E', SigNormal) stL') /\
-          rel pv sv bound u flf W' scf e' st' E' stL' /\ ctx_ok l' F' E' c' cend /\
-          (forall d, In d (w_funs W') -> In (fd_var d) (fnames flf))
+          rel pv sv bound u flf W' scf e' st' E' stL' /\ ctx_ok l' F' E' c' cend
     | SyltSem.RStop o => exists ev stL', ExecS E b stL (RErr ev stL') /\ SyltSem.trace st' = s_out stL'
     | SyltSem.RAbrupt _ => False
     end.
 Proof.
-  induction items as [|s items IH]; intros c cs c' cend e st r st' sc scf fl flf W l E stL F Hev Hm Hf Hu Hce Hctx Hrel Hall Hna Hint.
+  induction items as [|s items IH]; intros c cs c' cend e st r st' sc scf fl flf W l E stL F Hev Hm Hf Hu Hce Hctx Hrel Hna Hint.
   - destruct (mapM_nil_ok _ _ _ _ Hm) as [-> ->]. cbn in Hf. inversion Hf; subst scf flf.
     cbn in Hev. inversion Hev; subst r st'.
-    eexists _, _. split; [apply cshape_nil|]. exists W, E, stL, F. splits; [apply XS_nil | exact Hrel | exact Hctx | exact Hall].
+    eexists _, _. split; [apply cshape_nil|]. exists W, E, stL, F. splits; [apply XS_nil | exact Hrel | exact Hctx].
   - apply mapM_cons_ok in Hm as (y & c1 & ys & Hy & Hys & ->). cbn [concat] in *.
     apply ucovers_app in Hu as [Huy Huys].
     pose proof Hctx as [Hbc Hlut HFo HEf].
@@ -224,8 +222,7 @@ Proof.
                 match r with
                 | SyltSem.RVal e' =>
                     exists W' E' stL' F', ExecS E b stL (ROk (E', SigNormal) stL') /\
-                      rel pv sv bound u flf W' scf e' st' E' stL' /\ ctx_ok l' F' E' c' cend /\
-                      (forall d, In d (w_funs W') -> In (fd_var d) (fnames flf))
+                      rel pv sv bound u flf W' scf e' st' E' stL' /\ ctx_ok l' F' E' c' cend
                 | SyltSem.RStop o => exists ev stL', ExecS E b stL (RErr ev stL') /\ SyltSem.trace st' = s_out stL'
                 | SyltSem.RAbrupt _ => False
                 end).
@@ -249,12 +246,12 @@ Proof.
         as (b1 & l1 & Hs1 & E1 & stL1 & F1 & Hok1 & Hse1 & Hinc1).
       pose proof Hok1 as (Hx1 & _ & Hrel1 & _).
       assert (Hctx1 : ctx_ok l1 F1 E1 c1 cend) by (eapply (ctx_afterS pv sv bound u fl W); eassumption).
-      destruct (IH c1 ys c' cend e1 st1 r st' sc1 scf fl flf W l1 E1 stL1 F1 Hev Hys Hrest Huys Hce Hctx1 Hrel1 Hall Hna Hint)
+      destruct (IH c1 ys c' cend e1 st1 r st' sc1 scf fl flf W l1 E1 stL1 F1 Hev Hys Hrest Huys Hce Hctx1 Hrel1 Hna Hint)
         as (b2 & l2 & Hs2 & Hpost).
       eexists _, _. split; [eapply cshape_app; eassumption|].
       destruct r as [e2|o|cc]; [| |destruct Hna].
-      - destruct Hpost as (W' & E' & stL' & F' & Hx2 & Hr2 & Hc2 & Ha2).
-        exists W', E', stL', F'. splits; [eapply ExecS_app; eassumption | exact Hr2 | exact Hc2 | exact Ha2].
+      - destruct Hpost as (W' & E' & stL' & F' & Hx2 & Hr2 & Hc2).
+        exists W', E', stL', F'. splits; [eapply ExecS_app; eassumption | exact Hr2 | exact Hc2].
       - destruct Hpost as (ev & stL' & Hx2 & Htr). exists ev, stL'. split; [eapply ExecS_app; eassumption | exact Htr]. }
     destruct value;
       try (match type of Hf with context [frag_stmt pv sv bound fl k sc ?s0] =>
@@ -263,22 +260,23 @@ Proof.
     (* a function *)
     match type of Hf with (if ?b then _ else _) = _ => destruct b eqn:Hc; [|discriminate Hf] end.
     apply andb_prop in Hc as [Hc Hfb]. apply andb_prop in Hc as [Hfr Hpok].
-    set (ps := param_ids params) in *. set (fl' := (var, length ps) :: fl) in *.
-    destruct (frag_stmts pv sv bound fl' k (rev ps ++ sc) body) as [scout|] eqn:Hfbody; [|discriminate Hfb].
+    set (ps := param_ids params) in *. set (ks := param_kinds params) in *. set (fl' := (var, KF ks KP) :: fl) in *.
+    destruct (frag_stmts pv sv bound (snd (bind_scope ps ks sc fl')) k (fst (bind_scope ps ks sc fl')) body) as [scout|] eqn:Hfbody; [|discriminate Hfb].
+    assert (Hlks : length ks = length ps) by (unfold ks, ps, param_kinds, param_ids; rewrite !map_length; reflexivity).
     cbn [compile_stmt] in Hy. rewrite definition_fun in Hy. fold ps in Hy. mon Hy. fresh_all. rename a0 into bc.
     rewrite exec_def_fun in Hev. fold ps in Hev.
     apply ucovers_cons in Huy as [_ Huy]. apply ucovers_app in Huy as [Hubc _].
-    destruct (L_fb_all pv sv bound u fl' (S n') k body 0 (c + 1) bc c1 _ scout l Hm0 Hfbody) as (bb & l1 & Hsb).
+    destruct (L_fb_all pv sv bound u _ (S n') k body 0 (c + 1) bc c1 _ scout l Hm0 Hfbody) as (bb & l1 & Hsb).
     pose proof Hsb as (Hemb & Hcc1 & Hfr1 & Hnlb).
     destruct (fresh_id_inv _ _ _ _ _ _ Hfr) as (Hnin & Hnpv & Hnsv & Hvb).
     destruct (L_items (S n') k items c1 ys c' sc fl' scf flf l1 Hys Hf) as (_ & _ & (_ & Hc1c' & _) & _);
       [intros v Hv; rewrite Hfr1 by lia; apply Hlb; exact Hv | lia |].
     assert (Hlut1 : lut_ok bound l (c + 1) c1) by (eapply lut_ok_sub; [exact Hlut | lia | lia]).
     assert (HEf1 : E_free E (c + 1) c1) by (eapply E_free_sub; [exact HEf | lia | lia]).
-    destruct (rel_define_function pv sv bound u fl W sc e st E stL var ps body (S n') k scout bc 0 (c + 1) c1 l
-                Hrel Hall Hfr Hpok Hfbody Hm0 Hubc ltac:(lia) Hlut1 HEf1) as (Hrel1 & Hall1).
+    pose proof (rel_define_function pv sv bound u fl W sc e st E stL var ps ks body (S n') k scout bc 0 (c + 1) c1 l
+                Hrel Hfr Hpok Hlks Hfbody Hm0 Hubc ltac:(lia) Hlut1 HEf1) as Hrel1.
     set (E1 := sset (fmt_var var) (s_ncell stL) E) in *.
-    set (d := mkFdyn var ps body sc fl' (S n') k scout bc 0 (c + 1) c1 l (length (SyltSem.cells st)) (length (SyltSem.clos st))
+    set (d := mkFdyn var ps ks body sc fl' (S n') k scout bc 0 (c + 1) c1 l (length (SyltSem.cells st)) (length (SyltSem.clos st))
                      (def_env var e st) (s_ncell stL) (s_nclo stL) E1) in *.
     assert (Hbb : bb = fbody u d) by (unfold fbody; cbn [d fd_lut fd_code]; apply (Emits_block_fun u l bc bb l1 Hemb)).
     assert (Hx1 : Exec E (SLocalFun (fmt_var var) (map fmt_var ps) bb) stL (ROk (E1, SigNormal) (lua_def_state stL E1 ps bb)))
@@ -288,15 +286,14 @@ Proof.
       - intros t0 Ht0. rewrite Hfr1 by lia. apply Hlut. lia.
       - intros t0 Ht0. unfold E1. rewrite sget_sset_var by lia. apply HEf. lia. }
     change (rel pv sv bound u fl' (world_add W d) sc (def_env var e st) (def_state var ps body e st) E1 (lua_def_state stL E1 ps (fbody u d))) in Hrel1.
-    change (forall d', In d' (w_funs (world_add W d)) -> In (fd_var d') (fnames fl')) in Hall1.
     rewrite <- Hbb in Hrel1.
     destruct (IH c1 ys c' cend (def_env var e st) (def_state var ps body e st) r st' sc scf fl' flf (world_add W d) l1 E1
-                 (lua_def_state stL E1 ps bb) F Hev Hys Hf Huys Hce Hctx1 Hrel1 Hall1 Hna Hint)
+                 (lua_def_state stL E1 ps bb) F Hev Hys Hf Huys Hce Hctx1 Hrel1 Hna Hint)
       as (b2 & l2 & Hs2 & Hpost).
     eexists _, _. split; [eapply cshape_app; [apply cshape_fun; [exact Hsb | apply Hlb; exact Hvb] | exact Hs2]|].
     destruct r as [e2|o|cc]; [| |destruct Hna].
-    + destruct Hpost as (W' & E' & stL' & F' & Hx2 & Hr2 & Hc2 & Ha2).
-      exists W', E', stL', F'. splits; [|exact Hr2 | exact Hc2 | exact Ha2].
+    + destruct Hpost as (W' & E' & stL' & F' & Hx2 & Hr2 & Hc2).
+      exists W', E', stL', F'. splits; [|exact Hr2 | exact Hc2].
       cbn [app]. eapply XS_cons; [exact Hx1 | exact Hx2].
     + destruct Hpost as (ev & stL' & Hx2 & Htr). exists ev, stL'. split; [|exact Htr].
       cbn [app]. eapply XS_cons; [exact Hx1 | exact Hx2].
@@ -340,7 +337,7 @@ Lemma frag_inv k r :
     name = "print"%string /\ IR.find_start (Resolved.r_vars r) = Some s /\
     pv < N.of_nat (length (Resolved.r_vars r)) + 1 /\
     frag_items pv (N.of_nat (length (Resolved.r_vars r)) + 1) (N.of_nat (length (Resolved.r_vars r)) + 1) k [] [] items = Some (scg, flg) /\
-    fun_arity flg s = Some O.
+    fun_kind flg s = Some (KF [] KP).
 Proof.
   unfold frag. intros H.
   destruct (r_stmts r) as [|s0 items]; [discriminate H|]. destruct s0; try discriminate H.
@@ -348,7 +345,7 @@ Proof.
   change (Frag.find_start (Resolved.r_vars r)) with (IR.find_start (Resolved.r_vars r)) in Hfr.
   destruct (IR.find_start (Resolved.r_vars r)) as [s|] eqn:Hs; [|discriminate].
   match type of Hfr with match ?x with _ => _ end = _ => destruct x as [[scg flg]|] eqn:Hg; [|discriminate] end.
-  destruct (fun_arity flg s) as [[|ar]|] eqn:Har; try discriminate.
+  destruct (fun_kind flg s) as [[|[|? ?] [|? ?]]|] eqn:Har; try discriminate.
   apply String.eqb_eq in H. apply N.ltb_lt in Hfr0.
   do 9 eexists. splits; try reflexivity; try eassumption.
 Qed.
@@ -365,18 +362,19 @@ Definition lua_result (st0 : state) (code : list ir) (res : SyltSem.run_result) 
     | _ => exists v, r = RErr v st
     end.
 
-Definition world0 : world := mkWorld (fun _ _ => False) (fun _ _ => False) (fun _ _ => False) (fun _ _ => False) [].
+Definition world0 : world := mkWorld (fun _ _ => False) (fun _ _ _ => False) (fun _ => False) (fun _ _ => False) 0%nat.
 
 Lemma program_sim k r code n res st0 :
   linv st0 -> s_out st0 = [] -> (forall v, raw_get (get_table st0 globals_id) (VStr (fmt_var v)) = VNil) ->
+  s_nclo st0 = s_nclo st_pre ->
   frag k r = true -> lower n r = Ok code -> SyltSem.run n r = res -> good_final (SyltSem.r_final res) ->
   lua_result st0 code res.
 Proof.
-  intros Hlin0 Hout0 HnoV Hfrag Hlow Hrun Hgood. subst res.
+  intros Hlin0 Hout0 HnoV Hnclo0 Hfrag Hlow Hrun Hgood. subst res.
   destruct (frag_inv k r Hfrag) as (name & pv & kd & t & sp & items & s & scg & flg & Hstmts & -> & Hstart & Hpvb & Hfg & Hars).
   set (bound := N.of_nat (length (Resolved.r_vars r)) + 1) in *.
   pose proof (frag_items_defs _ _ _ _ _ _ _ _ _ Hfg) as Hdefs.
-  apply (fun_arity_in flg) in Hars.
+  apply (fun_kind_in flg) in Hars.
   assert (Hne : items <> []) by (intros ->; cbn in Hfg; inversion Hfg; subst; destruct Hars).
   (* the lowering *)
   unfold lower in Hlow. rewrite Hstmts, Hstart in Hlow. fold bound in Hlow.
@@ -424,11 +422,10 @@ Proof.
     - apply (g_nometa _ (li_genv _ Hlin0)). }
   assert (Hlin1 : linv st1) by (apply linv_set_global; exact Hlin0).
   assert (Hrel0 : rel pv bound bound u [] world0 [] [(pv, 0%nat)] print_state PLeaf st1).
-  { constructor.
+  { apply rel_of0; [intros f ar []|]. constructor.
     - intros v [].
     - intros v [].
-    - intros v1 v2 c [].
-    - exists 0%nat. cbn [SyltSem.lookup]. rewrite N.eqb_refl. splits; [reflexivity | reflexivity | intros v []].
+    - cbn [SyltSem.lookup world0 w_pc]. rewrite N.eqb_refl. reflexivity.
     - exact Hpvb.
     - apply pre_ncell_env.
     - apply glob_set_global.
@@ -438,8 +435,23 @@ Proof.
       + intros x p H. rewrite pre_ncell_env in H. discriminate.
     - exact (eq_sym Hout0).
     - exact Hlin1.
-    - constructor; cbn [world0 w_IS w_IL w_funs]; try (intros; contradiction).
-      intros v p lv []. }
+    - constructor; cbn [world0 w_R w_F w_D w_P w_pc].
+      + intros c p [].
+      + intros c p p' [].
+      + intros c c' p [].
+      + intros c p [].
+      + intros c p lv [].
+      + intros c p d [].
+      + intros c p d lv [].
+      + intros c p d p' d' [].
+      + intros p lv [].
+      + reflexivity.
+      + intros d [].
+      + intros ci Hci. cbn in Hci. lia.
+      + cbn [print_state SyltSem.clos length]. unfold fid_of. rewrite Nat.add_0_r, Pos2Nat.id. exact Hnclo0.
+      + intros v [].
+      + intros v [].
+      + intros t0 p0 _ H. rewrite pre_ncell_env in H. discriminate. }
   assert (Hctx0 : ctx_ok bound [] [] PLeaf bound (cg + 1)).
   { constructor; [lia | intros t0 _; reflexivity | intros t0 [] | intros t0 _; apply pre_ncell_env]. }
   (* the outer definitions *)
@@ -450,15 +462,11 @@ Proof.
   { destruct rg as [eg|o|cc]; [exact I | | destruct Hnag]. cbn in Hgood. destruct o; try destruct Hgood; try exact I.
     exfalso. eapply run_outer_not_done. exact Hrg. }
   destruct (items_sim pv bound bound u f' k items bound csg cg (cg + 1) _ _ rg stg [] scg [] flg world0 [] PLeaf st1 []
-              Hrg Hmg Hfg Hug ltac:(lia) Hctx0 Hrel0 ltac:(intros d []) Hnag Hintg) as (bg & lg & Hsg & Hpostg).
-  assert (Hsb0 : forall W' E' stL' e' st', rel pv bound bound u flg W' scg e' st' E' stL' -> s < bound).
-  { intros W' E' stL' e' st' Hr. pose proof (r_world _ _ _ _ _ _ _ _ _ _ _ Hr) as HW.
-    destruct (wi_cover _ _ _ _ _ _ _ _ _ _ _ HW s O Hars) as (d & Hd & <- & _).
-    destruct (wi_fun _ _ _ _ _ _ _ _ _ _ _ HW d Hd) as (Hst & _). apply (fs_var _ _ _ _ _ Hst). }
+              Hrg Hmg Hfg Hug ltac:(lia) Hctx0 Hrel0 Hnag Hintg) as (bg & lg & Hsg & Hpostg).
+  assert (Hsb : s < bound) by (eapply (frag_items_bound pv bound bound k items [] [] scg flg Hfg); [intros f ar [] | exact Hars]).
   destruct rg as [eg|o|cc]; [| |destruct Hnag].
   2: { (* an outer definition fails *)
        destruct Hpostg as (ev & stL' & Hxg & Htr).
-       assert (Hsb : s < bound) by (eapply (frag_items_bound pv bound bound k items [] [] scg flg Hfg); [intros f ar [] | exact Hars]).
        destruct (Hemit bg lg Hsg Hsb) as (Hcode & Hnlp).
        unfold lua_result. fold code. rewrite Hcode.
        exists (RErr ev stL'), stL'. splits.
@@ -468,21 +476,13 @@ Proof.
        - cbn [SyltSem.r_trace]. rewrite <- Htr. reflexivity.
        - cbn [SyltSem.r_final]. cbn in Hgood. destruct o; try destruct Hgood; eauto.
          exfalso. eapply run_outer_not_done. exact Hrg. }
-  destruct Hpostg as (Wg & Eg & stLg & Fg & Hxg & Hrelg & Hctxg & Hallg).
-  pose proof (Hsb0 _ _ _ _ _ Hrelg) as Hsb.
+  destruct Hpostg as (Wg & Eg & stLg & Fg & Hxg & Hrelg & Hctxg).
   destruct (Hemit bg lg Hsg Hsb) as (Hcode & Hnlp).
   unfold lua_result. fold code. rewrite Hcode.
   (* the call of start *)
-  pose proof (r_world _ _ _ _ _ _ _ _ _ _ _ Hrelg) as HW.
-  destruct (wi_cover _ _ _ _ _ _ _ _ _ _ _ HW s O Hars) as (d & Hd & Hds & Hdp).
-  assert (Hvis : In (fd_var d) (fnames flg)) by (rewrite Hds; unfold fnames; change s with (fst (s, O)); apply in_map; exact Hars).
-  destruct (wi_visS _ _ _ _ _ _ _ _ _ _ _ HW d Hd Hvis) as [Hlks _].
-  destruct (wi_visL _ _ _ _ _ _ _ _ _ _ _ HW d Hd Hvis) as [HlkL _].
-  destruct (wi_fun _ _ _ _ _ _ _ _ _ _ _ HW d Hd) as (Hst & HIS & HIL).
-  pose proof (wi_IS _ _ _ _ _ _ _ _ _ _ _ HW _ _ HIS) as Hnth.
-  destruct (wi_IL _ _ _ _ _ _ _ _ _ _ _ HW _ _ HIL) as [Hcell _].
-  rewrite Hds in Hlks, HlkL.
-  assert (Hbind : SyltSem.bind (SyltSem.read_cell (fd_cf d)) (fun fv => SyltSem.apply (S (S f')) fv []) stg =
+  destruct (r_fund _ _ _ _ _ _ _ _ _ _ _ s _ Hrelg Hars) as (cf & pf & d & Hlks & Hnth & HlkL & Hcell & Hd & Hdk).
+  assert (Hpk : fd_pk d = []) by (unfold dkind in Hdk; inversion Hdk; reflexivity).
+  assert (Hbind : SyltSem.bind (SyltSem.read_cell cf) (fun fv => SyltSem.apply (S (S f')) fv []) stg =
                   SyltSem.apply (S (S f')) (SyltSem.SClos (fd_ci d)) [] stg)
     by (unfold SyltSem.bind, SyltSem.read_cell; rewrite Hnth; reflexivity).
   rewrite Hlks, Hbind in Hgood |- *.
@@ -490,8 +490,9 @@ Proof.
   assert (Hinta : interesting ra).
   { destruct ra as [v|o|cc]; [exact I | | destruct cc; exact I]. cbn in Hgood. destruct o; try destruct Hgood; try exact I.
     exfalso. pose proof (SemSane.s_apply _ (SemSane.sane_all (S (S f'))) (SyltSem.SClos (fd_ci d)) [] stg) as Hq. rewrite Hap in Hq. exact Hq. }
+  assert (Hargs0 : Forall3 (arel Wg) (fd_pk d) [] []) by (rewrite Hpk; constructor).
   pose proof (proj2 (proj2 (proj2 (proj2 (proj2 (P_all pv bound bound u (S (S f')) flg Wg))))) d [] [] scg eg stg Eg stLg ra sta
-                    Hrelg Hd Hvis (Forall2_nil _) Hap Hinta) as Hcall.
+                    Hrelg Hd Hargs0 Hap Hinta) as Hcall.
   assert (Hev_s : Eval Eg (EVar (fmt_var s)) stLg (ROk (VFun (fd_fid d)) stLg)).
   { rewrite <- Hcell. apply Eval_local. exact HlkL. }
   destruct ra as [v|o|cc]; [| |destruct Hcall].
@@ -528,7 +529,7 @@ Theorem fragment_preservation k r code n res :
     o_trace out = SyltSem.r_trace res /\ same_final (SyltSem.r_final res) (o_final out).
 Proof.
   intros Hfrag Hlow Hrun Hgood.
-  destruct (program_sim k r code n res st_pre pre_linv pre_out pre_no_fmt_var Hfrag Hlow Hrun Hgood)
+  destruct (program_sim k r code n res st_pre pre_linv pre_out pre_no_fmt_var eq_refl Hfrag Hlow Hrun Hgood)
     as (rl & stf & Hex & Hst & Htr & Hfin).
   pose proof (exec_block_app_run pre_block pre_fuel PLeaf (init_state Lua53) PLeaf st_pre pre_nolabel pre_runs (emit_ast code) rl Hex)
     as [m Hm].
